@@ -18,7 +18,8 @@ MANIFEST = dict(
              "real 32-bit functions in both directions (exhaustive on the code); for 64 bit, (x, hash(x), inverse(x)) "
              "of structured and random words are recorded from the real functions and validated by TLC against the "
              "spec programs (TraceInvHash.tla), plus 10^8 (quick) / 2*10^9 (thorough) random round trips in the harness."
-         " Added after the seeded-change campaign: round trips on words whose intermediate value at every statement boundary of the pipelines is structured (a fast path or tie inside one inverse block fires on such values).",
+         " Added after the seeded-change campaign: round trips on words whose intermediate value at every statement boundary of the pipelines is structured (a fast path or tie inside one inverse block fires on such values)."
+             " Purity: pairs of words sharing a half word / one bit apart evaluated back to back, and call sequences across the two widths on the same word.",
         design_ref="DESIGN.md section 4, C19",
         note="32-bit half: exhaustive on the code.  64-bit half: universal for the spec; carried over to the code only "
              "through code = spec on the recorded words (1000 quick / 10000 thorough) - a deviation of the code on other "
